@@ -16,6 +16,7 @@ import Hpl.Model.Rewrite.Split
 import Hpl.Model.Rewrite.Refactor
 import Hpl.Model.Rewrite.Simplify
 import Hpl.Model.Parser
+import Hpl.Spec.PrintToks
 /-! Line-protocol driver: one S-expression request per line on stdin, one canonical answer per line on stdout. -/
 open Hpl
 open Hpl.Codec
@@ -254,6 +255,32 @@ def handle (req : Sexp) : Sexp :=
     else if entry == "property" then encM (fun p => [encProperty p]) (parseProperty text)
     else if entry == "specification" then encM (fun ps => ps.map encProperty) (parseSpecification text)
     else errS "protocol" "parse entry"
+  | .list [.atom "rtcheck", .atom entry, .str text] =>
+    -- the hypotheses and the token-level reading of `parse_toks_roundtrip` (Props/C06b) on a concrete text: is the parser's
+    -- tree `printable`; does the lexer make `Raw.toks` of the printed form (kind and text of every token; word tokens not
+    -- glued to a preceding word character); does the parser read `Raw.toks` back to the tree
+    let key (t : Tok) : (TokKind × String × Bool) := (t.kind, t.text, t.kind == TokKind.word && t.afterWord)
+    let check (r : Raw) (printed : Except LexErr (List Tok)) : Sexp :=
+      let toksEq := match printed with | .ok ts => ts.map key == r.toks.map key | .error _ => false
+      let back := match parseExpressionToks r.toks with | .ok r' => (match build r, build r' with | .ok e, .ok e' => e == e' | _, _ => false) | .error _ => false
+      okS [Sexp.ofBool r.printable, Sexp.ofBool toksEq, Sexp.ofBool back]
+    if entry == "expression" then
+      match lexExpr text with
+      | .error _ => errS "syntax"
+      | .ok ts => match parseExpressionToks ts with
+        | .error _ => errS "syntax"
+        | .ok r => match build r with
+          | .ok e => check r (lexExpr e.print)
+          | .error _ => errS "build"
+    else if entry == "predicate" then
+      match lex text with
+      | .error _ => errS "syntax"
+      | .ok ts => match parsePredicateToks ts with
+        | .error _ => errS "syntax"
+        | .ok r => match build r with
+          | .ok e => check r (lexExpr e.print)
+          | .error _ => errS "build"
+    else errS "protocol" "rtcheck entry"
   | .list [.atom "printany", x] =>
     let fmt : Rat → String := fun q => match floatRepr q with | some s => s | none => "<float>"
     match decExpr x with
